@@ -192,6 +192,23 @@ theorem sbe_applyResult {a b : St} (h : SameButErrexit a b) (r : Res) :
   · split <;> exact ⟨e, rfl⟩
   · exact ⟨e, rfl⟩
 
+theorem applyResult_errexit (c : St) (e : Bool) (r : Res) :
+    ({ c with errexit := e } : St).applyResult r = { c.applyResult r with errexit := e } := by
+  unfold St.applyResult
+  split
+  · split <;> rfl
+  · rfl
+
+/-- splits a pair of related results into components -/
+theorem rel_cases {x y : St × Res} (h : Rel x y) :
+    ∃ s1 r e, x = (s1, r) ∧ y = ({ s1 with errexit := e }, r) := by
+  obtain ⟨s1, r⟩ := x
+  obtain ⟨s1', r'⟩ := y
+  obtain ⟨⟨e, he⟩, hr⟩ := h
+  simp only at he hr
+  subst he hr
+  exact ⟨s1, r, e, rfl, rfl⟩
+
 theorem irr_members (fuel : Nat) (ih : Irr fuel) :
     ∀ s s' cs f, SameButErrexit s s' → Cond s →
       Rel (execPipeMembers (fuel+1) s cs f) (execPipeMembers (fuel+1) s' cs f) := by
@@ -200,11 +217,9 @@ theorem irr_members (fuel : Nat) (ih : Irr fuel) :
   | nil => simp only [execPipeMembers]; obtain ⟨e, rfl⟩ := h; exact rel_mk ⟨e, rfl⟩
   | cons c rest =>
     simp only [execPipeMembers]
-    have h1 := ih.cmd (s.push .subshell) (s'.push .subshell) c (sbe_push h _) (cond_push s _ hc)
-    obtain ⟨e1, he1⟩ := rel_rewrite h1
-    rw [he1]
-    generalize execCmd fuel (s.push .subshell) c = x at *
-    obtain ⟨c1, r⟩ := x
+    obtain ⟨c1, r, e1, hx, hy⟩ :=
+      rel_cases (ih.cmd (s.push .subshell) (s'.push .subshell) c (sbe_push h _) (cond_push s _ hc))
+    rw [hx, hy]
     obtain ⟨e0, rfl⟩ := h
     cases r with
     | outOfFuel => exact rel_mk ⟨e0, rfl⟩
@@ -212,11 +227,317 @@ theorem irr_members (fuel : Nat) (ih : Irr fuel) :
       simp only [St.applyResult]
       exact ih.members _ _ rest _ ⟨e0, rfl⟩ (cond_of_stack rfl hc)
     | break_ d =>
-      simp only
-      have hst : ({ c1 with errexit := e1 } : St).applyResult (.break_ d) =
-          { c1.applyResult (.break_ d) with errexit := e1 } := by
-        unfold St.applyResult; split <;> [split <;> rfl; rfl]
-      rw [hst]
+      simp only [applyResult_errexit]
       exact ih.members _ _ rest _ ⟨e0, rfl⟩ (cond_of_stack rfl hc)
+
+
+theorem irr_cmds (fuel : Nat) (ih : Irr fuel) :
+    ∀ s s' cs, SameButErrexit s s' → Cond s → Rel (execCommands (fuel+1) s cs) (execCommands (fuel+1) s' cs) := by
+  intro s s' cs h hc
+  match cs with
+  | [] => simp only [execCommands]; obtain ⟨e, rfl⟩ := h; exact rel_mk ⟨e, rfl⟩
+  | [c] => simp only [execCommands]; exact ih.cmd s s' c h hc
+  | c :: d :: t =>
+    simp only [execCommands]
+    have b1 := (bal fuel).members s (c :: d :: t) 0
+    obtain ⟨s1, r, e1, hx, hy⟩ := rel_cases (ih.members s s' (c :: d :: t) 0 h hc)
+    rw [hx] at b1
+    rw [hx, hy]
+    have hc1 : Cond s1 := cond_of_stack b1 hc
+    cases r with
+    | continue_ =>
+      have e2 := applyErrexit_cond ({ s1 with errexit := e1 }) (cond_of_stack rfl hc1)
+      have e3 := applyErrexit_cond s1 hc1
+      simp only [e2, e3]
+      exact rel_mk ⟨e1, rfl⟩
+    | break_ d => exact rel_mk ⟨e1, rfl⟩
+    | outOfFuel => exact rel_mk ⟨e1, rfl⟩
+
+theorem irr_elifs (fuel : Nat) (ih : Irr fuel) :
+    ∀ s s' e els, SameButErrexit s s' → Cond s →
+      Rel (execElifs (fuel+1) s e els) (execElifs (fuel+1) s' e els) := by
+  intro s s' e els h hc
+  cases e with
+  | nil =>
+    simp only [execElifs]
+    cases els with
+    | none => obtain ⟨e0, rfl⟩ := h; exact rel_mk ⟨e0, rfl⟩
+    | some l => exact ih.list s s' l h hc
+  | cons cb rest =>
+    obtain ⟨cond, body⟩ := cb
+    simp only [execElifs]
+    have b1 := (bal fuel).list (s.push .condition) cond
+    obtain ⟨s1, r, e1, hx, hy⟩ :=
+      rel_cases (ih.list (s.push .condition) (s'.push .condition) cond (sbe_push h _) (cond_push_condition s))
+    rw [hx] at b1
+    rw [hx, hy]
+    simp only [push_stack] at b1
+    have hc1 : Cond s1.pop := cond_of_stack (by simp [b1]) hc
+    cases r with
+    | continue_ =>
+      simp only
+      show Rel (if s1.pop.status = 0 then _ else _) (if s1.pop.status = 0 then _ else _)
+      split
+      · exact ih.list s1.pop _ body ⟨e1, rfl⟩ hc1
+      · exact ih.elifs s1.pop _ rest els ⟨e1, rfl⟩ hc1
+    | break_ d => exact rel_mk ⟨e1, rfl⟩
+    | outOfFuel => exact rel_mk ⟨e1, rfl⟩
+
+theorem irr_for (fuel : Nat) (ih : Irr fuel) :
+    ∀ s s' n b, SameButErrexit s s' → Cond s → Rel (execFor (fuel+1) s n b) (execFor (fuel+1) s' n b) := by
+  intro s s' n b h hc
+  cases n with
+  | zero => simp only [execFor]; exact rel_mk h
+  | succ n =>
+    simp only [execFor]
+    have b1 := (bal fuel).list s b
+    obtain ⟨s1, r, e1, hx, hy⟩ := rel_cases (ih.list s s' b h hc)
+    rw [hx] at b1
+    rw [hx, hy]
+    have hc1 : Cond s1 := cond_of_stack b1 hc
+    cases hl : loopStep r with
+    | stop => exact rel_mk ⟨e1, rfl⟩
+    | out r' => exact rel_mk ⟨e1, rfl⟩
+    | next => exact ih.for_ s1 _ n b ⟨e1, rfl⟩ hc1
+
+theorem irr_case (fuel : Nat) (ih : Irr fuel) :
+    ∀ s s' items f u, SameButErrexit s s' → Cond s →
+      SameButErrexit (execCase (fuel+1) s items f u).1 (execCase (fuel+1) s' items f u).1 ∧
+      (execCase (fuel+1) s items f u).2 = (execCase (fuel+1) s' items f u).2 := by
+  intro s s' items f u h hc
+  cases items with
+  | nil => simp only [execCase]; exact ⟨h, trivial⟩
+  | cons it rest =>
+    obtain ⟨m, body, k⟩ := it
+    simp only [execCase]
+    split
+    · exact ih.case_ s s' rest false u h hc
+    · have b1 := (bal fuel).list s body
+      obtain ⟨s1, r, e1, hx, hy⟩ := rel_cases (ih.list s s' body h hc)
+      rw [hx] at b1
+      rw [hx, hy]
+      have hc1 : Cond s1 := cond_of_stack b1 hc
+      cases r with
+      | continue_ =>
+        cases k with
+        | break_ => exact ⟨⟨e1, rfl⟩, rfl⟩
+        | fallThrough => exact ih.case_ s1 _ rest true _ ⟨e1, rfl⟩ hc1
+        | continue_ => exact ih.case_ s1 _ rest false _ ⟨e1, rfl⟩ hc1
+      | break_ d => exact ⟨⟨e1, rfl⟩, rfl⟩
+      | outOfFuel => exact ⟨⟨e1, rfl⟩, rfl⟩
+
+theorem irr_while (fuel : Nat) (ih : Irr fuel) :
+    ∀ s s' u c b e, SameButErrexit s s' → Cond s →
+      SameButErrexit (execWhile (fuel+1) s u c b e).1 (execWhile (fuel+1) s' u c b e).1 ∧
+      (execWhile (fuel+1) s u c b e).2 = (execWhile (fuel+1) s' u c b e).2 := by
+  intro s s' u c b e h hc
+  simp only [execWhile]
+  have b1 := (bal fuel).list (s.push .condition) c
+  obtain ⟨s1, r, e1, hx, hy⟩ :=
+    rel_cases (ih.list (s.push .condition) (s'.push .condition) c (sbe_push h _) (cond_push_condition s))
+  rw [hx] at b1
+  rw [hx, hy]
+  simp only [push_stack] at b1
+  have hc1 : Cond s1.pop := cond_of_stack (by simp [b1]) hc
+  cases r with
+  | outOfFuel => simp only [loopStep]; first | exact ⟨⟨e1, rfl⟩, rfl⟩ | exact ⟨⟨e1, rfl⟩, trivial⟩
+  | break_ d =>
+    cases d with
+    | continue_ n =>
+      cases n with
+      | zero => simp only [loopStep]; exact ih.while_ s1.pop _ u c b e ⟨e1, rfl⟩ hc1
+      | succ n => simp only [loopStep]; first | exact ⟨⟨e1, rfl⟩, rfl⟩ | exact ⟨⟨e1, rfl⟩, trivial⟩
+    | break_ n =>
+      cases n with
+      | zero => simp only [loopStep]; first | exact ⟨⟨e1, rfl⟩, rfl⟩ | exact ⟨⟨e1, rfl⟩, trivial⟩
+      | succ n => simp only [loopStep]; first | exact ⟨⟨e1, rfl⟩, rfl⟩ | exact ⟨⟨e1, rfl⟩, trivial⟩
+    | return_ x => simp only [loopStep]; first | exact ⟨⟨e1, rfl⟩, rfl⟩ | exact ⟨⟨e1, rfl⟩, trivial⟩
+    | interrupt x => simp only [loopStep]; first | exact ⟨⟨e1, rfl⟩, rfl⟩ | exact ⟨⟨e1, rfl⟩, trivial⟩
+    | exit x => simp only [loopStep]; first | exact ⟨⟨e1, rfl⟩, rfl⟩ | exact ⟨⟨e1, rfl⟩, trivial⟩
+    | abort x => simp only [loopStep]; first | exact ⟨⟨e1, rfl⟩, rfl⟩ | exact ⟨⟨e1, rfl⟩, trivial⟩
+  | continue_ =>
+    simp only [loopStep]
+    by_cases hcnd : (s1.pop.status = 0) = ((!u) = true)
+    · have hcnd' : (({ s1 with errexit := e1 } : St).pop.status = 0) = ((!u) = true) := hcnd
+      rw [if_pos hcnd, if_pos hcnd']
+      have b2 := (bal fuel).list s1.pop b
+      obtain ⟨s2, r2, e2, hx2, hy2⟩ := rel_cases (ih.list s1.pop _ b ⟨e1, rfl⟩ hc1)
+      rw [hx2] at b2
+      have hy2' : execList fuel ({ s1 with errexit := e1 } : St).pop b = ({ s2 with errexit := e2 }, r2) := hy2
+      rw [hx2, hy2']
+      have hc2 : Cond s2 := cond_of_stack b2 hc1
+      cases r2 with
+      | outOfFuel => simp only [loopStep]; first | exact ⟨⟨e2, rfl⟩, rfl⟩ | exact ⟨⟨e2, rfl⟩, trivial⟩
+      | continue_ => simp only [loopStep]; exact ih.while_ s2 _ u c b _ ⟨e2, rfl⟩ hc2
+      | break_ d =>
+        cases d with
+        | continue_ n =>
+          cases n with
+          | zero => simp only [loopStep]; exact ih.while_ s2 _ u c b e ⟨e2, rfl⟩ hc2
+          | succ n => simp only [loopStep]; first | exact ⟨⟨e2, rfl⟩, rfl⟩ | exact ⟨⟨e2, rfl⟩, trivial⟩
+        | break_ n =>
+          cases n with
+          | zero => simp only [loopStep]; first | exact ⟨⟨e2, rfl⟩, rfl⟩ | exact ⟨⟨e2, rfl⟩, trivial⟩
+          | succ n => simp only [loopStep]; first | exact ⟨⟨e2, rfl⟩, rfl⟩ | exact ⟨⟨e2, rfl⟩, trivial⟩
+        | return_ x => simp only [loopStep]; first | exact ⟨⟨e2, rfl⟩, rfl⟩ | exact ⟨⟨e2, rfl⟩, trivial⟩
+        | interrupt x => simp only [loopStep]; first | exact ⟨⟨e2, rfl⟩, rfl⟩ | exact ⟨⟨e2, rfl⟩, trivial⟩
+        | exit x => simp only [loopStep]; first | exact ⟨⟨e2, rfl⟩, rfl⟩ | exact ⟨⟨e2, rfl⟩, trivial⟩
+        | abort x => simp only [loopStep]; first | exact ⟨⟨e2, rfl⟩, rfl⟩ | exact ⟨⟨e2, rfl⟩, trivial⟩
+    · have hcnd' : ¬ (({ s1 with errexit := e1 } : St).pop.status = 0) = ((!u) = true) := hcnd
+      rw [if_neg hcnd, if_neg hcnd']
+      exact ⟨⟨e1, rfl⟩, rfl⟩
+
+
+theorem classify_errexit (s : St) (e : Bool) (n : Name) :
+    classify { s with errexit := e } n = classify s n := by
+  cases n <;> rfl
+
+theorem rel_finishSimple' (a : St) (e : Bool) (hc : Cond a) (r : Res) :
+    Rel (finishSimple a r) (finishSimple { a with errexit := e } r) :=
+  rel_finishSimple ⟨e, rfl⟩ hc r
+
+theorem applyErrexit_stack (s : St) (h : s.stack.contains .condition = true) : s.applyErrexit = .continue_ :=
+  applyErrexit_cond s h
+
+theorem irr_cmd (fuel : Nat) (ih : Irr fuel) :
+    ∀ s s' c, SameButErrexit s s' → Cond s → Rel (execCmd (fuel+1) s c) (execCmd (fuel+1) s' c) := by
+  intro s s' c h hc
+  obtain ⟨e0, rfl⟩ := h
+  have hc0 : s.stack.contains .condition = true := hc
+  have hc' : Cond ({ s with errexit := e0 } : St) := cond_of_stack rfl hc
+  cases c with
+  | probe m => simp only [execCmd]; exact rel_finishSimple' _ e0 (by exact cond_of_stack rfl hc) _
+  | st n => simp only [execCmd]; exact rel_finishSimple' _ e0 (by exact cond_of_stack rfl hc) _
+  | brk n => simp only [execCmd]; exact rel_finishSimple' _ e0 (by exact cond_of_stack rfl hc) _
+  | cont n => simp only [execCmd]; exact rel_finishSimple' _ e0 (by exact cond_of_stack rfl hc) _
+  | ret n => simp only [execCmd]; exact rel_finishSimple' _ e0 (by exact cond_of_stack rfl hc) _
+  | exit n => simp only [execCmd]; exact rel_finishSimple' _ e0 (by exact cond_of_stack rfl hc) _
+  | setE on => simp only [execCmd]; exact rel_finishSimple' _ on (by exact cond_of_stack rfl hc) _
+  | unknown => simp only [execCmd]; exact rel_finishSimple' _ e0 (by exact cond_of_stack rfl hc) _
+  | tick c k =>
+    simp only [execCmd]
+    split <;> exact rel_finishSimple' _ e0 (by exact cond_of_stack rfl hc) _
+  | fundef name body => simp only [execCmd]; exact rel_finishSimple' _ e0 (by exact cond_of_stack rfl hc) _
+  | expErr =>
+    simp only [execCmd]
+    rw [expansionError_cond s hc, expansionError_cond _ hc']
+    exact rel_mk ⟨e0, rfl⟩
+  | assignErr =>
+    simp only [execCmd]
+    rw [expansionError_cond s hc, expansionError_cond _ hc']
+    exact rel_mk ⟨e0, rfl⟩
+  | redirErr k =>
+    simp only [execCmd]
+    cases k <;> simp only [applyErrexit_stack, hc0] <;> exact rel_mk ⟨e0, rfl⟩
+  | specialErr w st => simp only [execCmd]; exact rel_finishSimple' _ e0 (by exact cond_of_stack rfl hc) _
+  | trapExit body => simp only [execCmd]; exact rel_finishSimple' _ e0 (by exact cond_of_stack rfl hc) _
+  | group body => simp only [execCmd]; exact ih.list s _ body ⟨e0, rfl⟩ hc
+  | call name =>
+    simp only [execCmd, classify_errexit]
+    cases hcl : classify s name with
+    | specialColon => exact rel_finishSimple' _ e0 (by exact cond_of_stack rfl hc) _
+    | regularTrue => exact rel_finishSimple' _ e0 (by exact cond_of_stack rfl hc) _
+    | notFound => exact rel_finishSimple' _ e0 (by exact cond_of_stack rfl hc) _
+    | function body =>
+      simp only
+      have b1 := (bal fuel).cmd s body
+      obtain ⟨s1, r, e1, hx, hy⟩ := rel_cases (ih.cmd s { s with errexit := e0 } body ⟨e0, rfl⟩ hc)
+      rw [hx] at b1
+      rw [hx, hy]
+      have hc1 : Cond s1 := cond_of_stack b1 hc
+      cases r with
+      | continue_ => exact rel_finishSimple' _ e1 (by exact cond_of_stack rfl hc1) _
+      | outOfFuel => exact rel_finishSimple' _ e1 (by exact cond_of_stack rfl hc1) _
+      | break_ d =>
+        cases d with
+        | return_ x =>
+          cases x with
+          | none => exact rel_finishSimple' _ e1 (by exact cond_of_stack rfl hc1) _
+          | some v => exact rel_finishSimple' _ e1 (by exact cond_of_stack rfl hc1) _
+        | continue_ n => exact rel_finishSimple' _ e1 (by exact cond_of_stack rfl hc1) _
+        | break_ n => exact rel_finishSimple' _ e1 (by exact cond_of_stack rfl hc1) _
+        | interrupt x => exact rel_finishSimple' _ e1 (by exact cond_of_stack rfl hc1) _
+        | exit x => exact rel_finishSimple' _ e1 (by exact cond_of_stack rfl hc1) _
+        | abort x => exact rel_finishSimple' _ e1 (by exact cond_of_stack rfl hc1) _
+  | subshell body =>
+    simp only [execCmd]
+    obtain ⟨c1, r, e1, hx, hy⟩ := rel_cases
+      (ih.list (s.push .subshell) (({ s with errexit := e0 } : St).push .subshell) body ⟨e0, rfl⟩ (cond_push s _ hc))
+    rw [hx, hy]
+    cases r with
+    | outOfFuel => exact rel_mk ⟨e0, rfl⟩
+    | continue_ =>
+      simp only [St.applyResult, applyErrexit_stack, hc0]
+      exact rel_mk ⟨e0, rfl⟩
+    | break_ d =>
+      simp only [applyResult_errexit, applyErrexit_stack, hc0]
+      exact rel_mk ⟨e0, rfl⟩
+  | ifc cond body elifs els =>
+    simp only [execCmd]
+    have b1 := (bal fuel).list (s.push .condition) cond
+    obtain ⟨s1, r, e1, hx, hy⟩ := rel_cases
+      (ih.list (s.push .condition) (({ s with errexit := e0 } : St).push .condition) cond ⟨e0, rfl⟩
+        (cond_push_condition s))
+    rw [hx] at b1
+    rw [hx, hy]
+    simp only [push_stack] at b1
+    have hc1 : Cond s1.pop := cond_of_stack (by simp [b1]) hc
+    cases r with
+    | continue_ =>
+      simp only
+      by_cases hz : s1.pop.status = 0
+      · have hz' : ({ s1 with errexit := e1 } : St).pop.status = 0 := hz
+        rw [if_pos hz, if_pos hz']
+        exact ih.list s1.pop _ body ⟨e1, rfl⟩ hc1
+      · have hz' : ¬ ({ s1 with errexit := e1 } : St).pop.status = 0 := hz
+        rw [if_neg hz, if_neg hz']
+        exact ih.elifs s1.pop _ elifs els ⟨e1, rfl⟩ hc1
+    | break_ d => exact rel_mk ⟨e1, rfl⟩
+    | outOfFuel => exact rel_mk ⟨e1, rfl⟩
+  | whileLoop u cond body =>
+    simp only [execCmd]
+    have hw := ih.while_ (s.push .loop) (({ s with errexit := e0 } : St).push .loop) u cond body 0 ⟨e0, rfl⟩
+      (cond_push s _ hc)
+    generalize execWhile fuel (s.push .loop) u cond body 0 = x at hw
+    generalize execWhile fuel (({ s with errexit := e0 } : St).push .loop) u cond body 0 = y at hw
+    obtain ⟨s1, r, e⟩ := x
+    obtain ⟨s1', r', e'⟩ := y
+    obtain ⟨⟨e1, he⟩, hr⟩ := hw
+    simp only at he hr
+    obtain ⟨rfl, rfl⟩ := Prod.mk.inj hr
+    subst he
+    cases r <;> exact rel_mk ⟨e1, rfl⟩
+  | forLoop values body =>
+    simp only [execCmd]
+    split
+    · exact rel_mk ⟨e0, rfl⟩
+    · obtain ⟨s1, r, e1, hx, hy⟩ := rel_cases
+        (ih.for_ (s.push .loop) (({ s with errexit := e0 } : St).push .loop) values body ⟨e0, rfl⟩ (cond_push s _ hc))
+      rw [hx, hy]
+      exact rel_mk ⟨e1, rfl⟩
+  | caseC items =>
+    simp only [execCmd]
+    have hw := ih.case_ s { s with errexit := e0 } items false false ⟨e0, rfl⟩ hc
+    generalize execCase fuel s items false false = x at hw
+    generalize execCase fuel ({ s with errexit := e0 } : St) items false false = y at hw
+    obtain ⟨s1, r, u⟩ := x
+    obtain ⟨s1', r', u'⟩ := y
+    obtain ⟨⟨e1, he⟩, hr⟩ := hw
+    simp only at he hr
+    obtain ⟨rfl, rfl⟩ := Prod.mk.inj hr
+    subst he
+    cases r with
+    | continue_ => simp only; split <;> exact rel_mk ⟨e1, rfl⟩
+    | break_ d => exact rel_mk ⟨e1, rfl⟩
+    | outOfFuel => exact rel_mk ⟨e1, rfl⟩
+
+theorem irr : ∀ fuel, Irr fuel := by
+  intro fuel
+  induction fuel with
+  | zero => exact irr_zero
+  | succ fuel ih =>
+    exact ⟨irr_cmd fuel ih, irr_elifs fuel ih, irr_while fuel ih, irr_for fuel ih, irr_case fuel ih,
+      irr_list fuel ih, irr_item fuel ih, irr_aor fuel ih, irr_pipe fuel ih, irr_cmds fuel ih,
+      irr_members fuel ih⟩
 
 end YashModel.Exec
